@@ -35,6 +35,7 @@ def run(ctx):
                        "distinct = (configuration, operation, outcome) classes of edges / simulated behaviours by (length, last op)")
     for c in configs(ctx):
         F.run_config(ctx, PID, c)
+    F.run_recorded(ctx, PID, "random-wide", 60 if ctx.quick else 3000, 40 if ctx.quick else 60, F.NONDAMAGE + ["move", "clone", "stray"])
     ctx.cov["binding_selftest"] = F.selftest(ctx, PID)
 
 
